@@ -463,6 +463,9 @@ def main(tier):
     from . import miri_layer
     extra = miri_layer.run(col, PROP, deadline=time.time() + (120 if quick else 400), modes=('normpath', 'redopath'),
                            count=(80 if quick else 400), shards=(4 if quick else 16))
+    if not quick:
+        from . import memcheck_layer
+        memcheck_layer.run(col, PROP, ('normpath', 'redopath'), time.time() + 300)
     rc = col.finish(extra_coverage=extra)
     common.cleanup_scratch()
     return rc
